@@ -261,6 +261,44 @@ def parallel(fns, nthreads=8):
         return [f.result() for f in futs]
 
 
+def record_and_validate(ck, vh, vh_args, module, cfg, trace_name, nchunks, per, heap="3g", nthreads=8, extra_env=None):
+    """Run `vh <vh_args> <tracefile> <per>` nchunks times with derived seeds and validate each trace with TLC
+    (SPECIFICATION in cfg must end in the accumulating `bad`/Report style).  Returns (events, [(chunk, bad-record)...], sample path reader)."""
+    d = scratch_dir("vtr")
+    try:
+        def one(i):
+            def f():
+                tr = os.path.join(d, "t%d.ndjson" % i)
+                env = {"VERIF_SEED": str(seed() * 1000 + i)}
+                if extra_env:
+                    env.update(extra_env)
+                out, _ = run_vh(vh, vh_args + [tr, str(per)], env_extra=env)
+                r = run_tlc(module, cfg, workers=1, files={trace_name: tr}, heap=heap, timeout=3000)
+                if r.violated:
+                    raise Infra("%s chunk %d: %s (trace not fully consumed or spec error)\n%s" % (module, i, r.violated, r.out[-1500:]))
+                return json.loads(out.strip().splitlines()[-1]), r, tr
+            return f
+        res = parallel([one(i) for i in range(nchunks)], nthreads=nthreads)
+        nev = 0
+        bads = []
+        for i, (info, r, tr) in enumerate(res):
+            nev += info.get("events", 0)
+            ck.add_tlc("%s chunk %d" % (module, i), r, json.dumps(info))
+            for b in r.json_prints("BAD"):
+                b["chunk"] = i
+                b["chunk_seed"] = seed() * 1000 + i
+                bads.append(b)
+        samples = []
+        with open(res[0][2]) as f:
+            for j, ln in enumerate(f):
+                if j >= 400:
+                    break
+                samples.append(json.loads(ln))
+        return nev, bads, samples
+    finally:
+        shutil.rmtree(d, ignore_errors=True)
+
+
 def sim_stats(r):
     """For -simulate runs: number of states generated is printed differently."""
     m = re.search(r"The number of states generated: (\d+)", r.out)
